@@ -552,6 +552,7 @@ let op_sreply opidx impl_all toks =
         | None -> repeat N0 16 in
       let has f = (let re = f in let rec find i = i + String.length re <= String.length flags && (String.sub flags i (String.length re) = re || find (i + 1)) in find 0) in
       let secret = if has "wrongsecret" then bytes_of_string "not-the-secret" else (List.assoc srv !servers).sc_secret in
+      let secret = if has "prefixsecret" then cstr_ml secret else secret in
       let maoff = ref (-1) in
       let body = Buffer.create 64 in
       List.iter (fun tk ->
